@@ -164,6 +164,15 @@ theorem parse_render_fn (steps : List Step) (hok : steps.all Step.ok = true) :
     parsePath (renderFnPath steps).toList = some (.fromRoot, steps) := by
   simp only [renderFnPath, String.toList_ofList]; exact parsePath_renderFn steps hok
 
+/-- The token tree the recogniser reads from the generated text is the tree of the steps
+(`tokenTree`): left-nested `/`, each predicate bound to its step, kind tests with their argument.
+The harness compares this tree with `parser.parse(text).tree` of the real 3.0 / 3.1 parser for
+both texts of every node (agreement of the real parser with the recogniser: observed, structural). -/
+theorem text_tree_of_render (steps : List Step) (hok : steps.all Step.ok = true) :
+    textTree (renderAbs steps) = tokenTree .abs steps ∧
+    textTree (renderFnPath steps) = tokenTree .fromRoot steps := by
+  simp only [textTree, parse_render_abs steps hok, parse_render_fn steps hok, and_self]
+
 /-- The rendering is injective: two step lists with the same text are equal. -/
 theorem render_injective (s₁ s₂ : List Step) (h₁ : s₁.all Step.ok = true) (h₂ : s₂.all Step.ok = true)
     (h : renderAbs s₁ = renderAbs s₂) : s₁ = s₂ := by
